@@ -1,3 +1,379 @@
 package main
 
-func (h *H[T]) C11(rc *runCtx) *Violation { return nil }
+import (
+	"sort"
+	"unsafe"
+
+	"pipelined.dev/signal"
+	"verif.local/simrt"
+)
+
+// cycle is one get/use/put cycle of a C11 task, fully drawn before any task
+// starts (arguments that depend on run-time state are stored raw and reduced
+// when executed).
+type cycle struct {
+	handle  int // 0 shared pointer, 1 the task's own by-value copy, 2 a fresh by-value copy made now
+	uses    []useOp
+	inner   bool // sample-at-a-time loops offer inner yield points
+	hold    int
+	putMode int // 0 put as is, 1 put Slice(0,n), 2 forget
+	putArg  uint64
+	second  bool // hold a second buffer during this cycle
+}
+
+const (
+	evGet = iota
+	evPut
+	evForget
+)
+
+type poolEvent struct {
+	step, task, kind, obj int
+	rejected              bool
+}
+
+type taskState struct {
+	events []poolEvent
+	viol   *Violation
+	vstep  int
+}
+
+func stampVal[T signal.SignalTypes](task, cyc, which, i int) T {
+	return nonzero[T](uint64(task)<<40 ^ uint64(cyc)<<24 ^ uint64(which)<<20 ^ uint64(i))
+}
+
+// C11: G caller tasks sharing one pool allocator under the seeded scheduler.
+func (h *H[T]) C11(rc *runCtx) *Violation {
+	prog, sim := rc.prog, rc.sim
+	a := drawAllocator(prog, rc.b)
+	if a.Channels*a.Capacity > 2048 { // race-build cost; large shapes are C10's business
+		a.Capacity = 2048 / a.Channels
+		if a.Length > a.Capacity {
+			a.Length = a.Capacity
+		}
+	}
+	env := drawPoolEnv(rc)
+	var g int
+	switch prog.Draw(4) {
+	case 0:
+		g = 2
+	case 1:
+		g = 3
+	case 2:
+		g = 2 + prog.Draw(7)
+	default:
+		g = 2 + prog.Draw(rc.b.MaxG-1)
+	}
+	if g > rc.b.MaxG {
+		g = rc.b.MaxG
+	}
+	m := 1 + prog.Draw(rc.b.MaxM)
+	if g > 16 && m > 4 {
+		m = 4
+	}
+	shareMode := prog.Draw(3) // 0 one shared pointer, 1 per-task copies by value, 2 mixed per cycle
+	progs := make([][]cycle, g)
+	estSteps, estInner := 0, 0
+	for t := range progs {
+		progs[t] = make([]cycle, m)
+		for c := range progs[t] {
+			cy := &progs[t][c]
+			switch shareMode {
+			case 0:
+				cy.handle = 0
+			case 1:
+				cy.handle = 1
+			default:
+				cy.handle = prog.Draw(3)
+			}
+			for n := prog.Draw(4); n > 0; n-- {
+				cy.uses = append(cy.uses, drawUse(prog))
+			}
+			cy.inner = prog.Draw(3) == 2
+			cy.hold = prog.Draw(4)
+			switch prog.Draw(8) {
+			case 5, 6:
+				cy.putMode = 1
+			case 7:
+				cy.putMode = 2
+			}
+			cy.putArg = uint64(prog.Draw(1 << 16))
+			cy.second = prog.Draw(6) == 5
+			estSteps += 8 + len(cy.uses) + cy.hold
+			estInner += 3 * a.Channels * a.Capacity
+		}
+	}
+	sim.Strategy = 1 + sim.Sched.Draw(simrt.NumStrategies-1) // never the sequential reference
+	sim.StickyP = []int{2, 4, 8, 16}[sim.Sched.Draw(4)]
+	for k := sim.Sched.Draw(4); k > 0; k-- {
+		sim.InnerEvery = append(sim.InnerEvery, sim.Sched.Draw(estInner+1))
+	}
+	rc.tally("strategy", simrt.StrategyNames[sim.Strategy])
+	rc.tally("tasks", spA("%d", g))
+	rc.tally("share_mode", []string{"shared-pointer", "by-value-copies", "mixed"}[shareMode])
+	rc.cfg = spA("alloc=%+v G=%d M=%d share=%d strategy=%s stickyP=%d inner=%v %s", a, g, m, shareMode,
+		simrt.StrategyNames[sim.Strategy], sim.StickyP, sim.InnerEvery, env)
+	sim.Tracef("config: T=%s %s", h.name, rc.cfg)
+	if shareMode != 0 {
+		rc.probes[pByValueCopies]++
+	}
+
+	pa := signal.PoolAlloc[T](a)
+	shared := &pa
+	states := make([]*taskState, g)
+	// Per-task counters are task-local and summed after the join, so that
+	// the harness itself shares nothing between tasks.
+	taskOps := make([]int, g)
+	taskTwo := make([]int64, g)
+	for ti := 0; ti < g; ti++ {
+		ti := ti
+		ts := &taskState{}
+		states[ti] = ts
+		own := pa // the task's own copy of the allocator value (made before the tasks start)
+		sim.Go(spA("caller%d", ti), func(t *simrt.Task) {
+			ops, two := 0, int64(0)
+			defer func() { taskOps[ti], taskTwo[ti] = ops, two }()
+			fail := func(v *Violation) {
+				if ts.viol == nil {
+					ts.viol = v
+					ts.vstep = t.Step
+				}
+			}
+			handleOf := func(cy *cycle) *signal.PoolAllocator[T] {
+				switch cy.handle {
+				case 0:
+					return shared
+				case 1:
+					return &own
+				}
+				cp := *shared
+				return &cp
+			}
+			acquire := func(cy *cycle, cyc, which int) (b *signal.Buffer[T], ok bool) {
+				t.Yield(sGet)
+				var pv any
+				func() {
+					defer func() { pv = recover() }()
+					b = handleOf(cy).Get()
+				}()
+				ops++
+				if pv != nil {
+					fail(violf("get-panic", "task %d: Get panicked: %v", ti, pv))
+					return nil, false
+				}
+				id := sim.ObjID(unsafe.Pointer(b))
+				ts.events = append(ts.events, poolEvent{step: t.Step, task: ti, kind: evGet, obj: id})
+				sim.Tracef("  task %d cycle %d: Get -> obj#%d", ti, cyc, id)
+				t.Yield(sFresh)
+				if v := freshCheck(a, b); v != nil {
+					fail(v.prefixed("task %d cycle %d, obj#%d: ", ti, cyc, id))
+					return nil, false
+				}
+				return b, true
+			}
+			stamp := func(b *signal.Buffer[T], cy *cycle, cyc, which int) bool {
+				t.Yield(sStamp)
+				ok := true
+				func() {
+					defer func() {
+						if r := recover(); r != nil {
+							fail(violf("ownership-lost", "task %d cycle %d: stamping its own buffer panicked: %v", ti, cyc, r))
+							ok = false
+						}
+					}()
+					f := fullView(b)
+					for i := 0; i < f.Len(); i++ {
+						f.SetSample(i, stampVal[T](ti, cyc, which, i))
+						if cy.inner {
+							simrt.Point()
+						}
+					}
+				}()
+				return ok
+			}
+			verify := func(b *signal.Buffer[T], cy *cycle, cyc, which int) bool {
+				ok := true
+				func() {
+					defer func() {
+						if r := recover(); r != nil {
+							fail(violf("ownership-lost", "task %d cycle %d: re-reading its own buffer panicked: %v", ti, cyc, r))
+							ok = false
+						}
+					}()
+					f := fullView(b)
+					for i := 0; i < f.Len(); i++ {
+						if got, want := bitsOf(f.Sample(i)), bitsOf(stampVal[T](ti, cyc, which, i)); got != want {
+							fail(violf("ownership-lost", "task %d cycle %d: position %d of the buffer it holds (obj#%d) reads %#x, it had written %#x: another party wrote into storage this task holds",
+								ti, cyc, i, sim.ObjID(unsafe.Pointer(b)), got, want))
+							ok = false
+							return
+						}
+						if cy.inner {
+							simrt.Point()
+						}
+					}
+				}()
+				return ok
+			}
+			release := func(b *signal.Buffer[T], hdr *signal.Buffer[T], cy *cycle, cyc int) {
+				if cy.putMode == 2 {
+					t.Yield(sForget)
+					ts.events = append(ts.events, poolEvent{step: t.Step, task: ti, kind: evForget, obj: sim.ObjID(unsafe.Pointer(hdr))})
+					sim.Tracef("  task %d cycle %d: forget obj#%d", ti, cyc, sim.ObjID(unsafe.Pointer(hdr)))
+					return
+				}
+				t.Yield(sPut)
+				pb := b
+				if cy.putMode == 1 {
+					func() {
+						defer func() { recover() }()
+						pb = b.Slice(0, int(cy.putArg)%(b.Capacity()+1))
+					}()
+				}
+				var pv any
+				pbID, pbLen := sim.ObjID(unsafe.Pointer(pb)), pb.Len() // the buffer must not be touched after Put
+				func() {
+					defer func() { pv = recover() }()
+					handleOf(cy).Put(pb)
+				}()
+				ops++
+				// Whatever header went into the pool, the task lets go of the one it got.
+				ts.events = append(ts.events, poolEvent{step: t.Step, task: ti, kind: evPut, obj: sim.ObjID(unsafe.Pointer(hdr)), rejected: pv != nil})
+				if pb != hdr {
+					ts.events = append(ts.events, poolEvent{step: t.Step, task: ti, kind: evPut, obj: pbID, rejected: pv != nil})
+				}
+				sim.Tracef("  task %d cycle %d: Put obj#%d (len=%d) rejected=%v", ti, cyc, pbID, pbLen, pv != nil)
+			}
+
+			for cyc := range progs[ti] {
+				cy := &progs[ti][cyc]
+				b, ok := acquire(cy, cyc, 0)
+				if !ok {
+					return
+				}
+				hdr := b
+				var b2 *signal.Buffer[T]
+				if cy.second {
+					if b2, ok = acquire(cy, cyc, 1); !ok {
+						return
+					}
+					two++
+				}
+				var hs hist
+				for _, u := range cy.uses {
+					t.Yield(sUse)
+					var point func()
+					if cy.inner {
+						point = simrt.Point
+					}
+					h.applyUse(&b, u, b2, &hs, point, func(format string, args ...any) {
+						sim.Tracef("  task %d cycle %d: use "+format, append([]any{ti, cyc}, args...)...)
+					})
+					ops++
+				}
+				if !stamp(b, cy, cyc, 0) {
+					return
+				}
+				if b2 != nil && !stamp(b2, cy, cyc, 1) {
+					return
+				}
+				for k := 0; k < cy.hold; k++ {
+					t.Yield(sHold)
+				}
+				t.Yield(sVerify)
+				if !verify(b, cy, cyc, 0) {
+					return
+				}
+				if b2 != nil && !verify(b2, cy, cyc, 1) {
+					return
+				}
+				release(b, hdr, cy, cyc)
+				if b2 != nil {
+					release(b2, b2, cy, cyc)
+				}
+			}
+		})
+	}
+	sim.Run(estSteps)
+
+	// Post-run inspection (every task happens-before this point).
+	for ti := range states {
+		rc.ops += taskOps[ti]
+		rc.probes[pTwoBuffersHeld] += taskTwo[ti]
+	}
+	var first *Violation
+	firstStep := 1 << 62
+	for ti, ts := range states {
+		if ts.viol != nil && ts.vstep < firstStep {
+			first, firstStep = ts.viol, ts.vstep
+		}
+		if pv := sim.Tasks()[ti].PanicVal; pv != nil && ts.viol == nil && first == nil {
+			first = violf("task-panic", "task %d panicked outside any recovered operation: %v", ti, pv)
+		}
+	}
+	// Oracle 2: identity intervals over the merged history, ordered by the
+	// scheduler's global step numbers. Steps are atomic, so this is the
+	// linearizability check of the Get/Put history against the pool's
+	// sequential specification "Get returns an object not currently handed out".
+	var all []poolEvent
+	for _, ts := range states {
+		all = append(all, ts.events...)
+	}
+	sort.SliceStable(all, func(i, j int) bool { return all[i].step < all[j].step })
+	holder := map[int]int{}  // obj -> task currently holding it
+	lastPut := map[int]int{} // obj -> task that put it last
+	putStep := map[int]int{} // obj -> step of that put
+	holding := make([]int, len(states))
+	for _, e := range all {
+		switch e.kind {
+		case evGet:
+			if other, held := holder[e.obj]; held {
+				v := violf("held-twice", "step %d: Get handed obj#%d to task %d while task %d still holds it (obtained and not yet put back)", e.step, e.obj, e.task, other)
+				if e.step < firstStep {
+					first, firstStep = v, e.step
+				}
+			}
+			holder[e.obj] = e.task
+			if lp, ok := lastPut[e.obj]; ok {
+				if lp != e.task {
+					rc.probes[pXTaskRecycle]++
+				} else {
+					rc.probes[pSameTaskRecycle]++
+				}
+				for _, gs := range sim.GCSteps {
+					if gs >= putStep[e.obj] && gs < e.step {
+						rc.probes[pGCBetweenPutGet]++
+						break
+					}
+				}
+				delete(lastPut, e.obj)
+			}
+			others := 0
+			for tk, n := range holding {
+				if tk != e.task && n > 0 {
+					others++
+				}
+			}
+			if others > 0 {
+				rc.probes[pGetWhileOtherHolds]++
+			}
+			if others >= 2 {
+				rc.probes[pTwoHoldersSameStep]++
+			}
+			holding[e.task]++
+		case evPut:
+			if t, ok := holder[e.obj]; ok && t == e.task {
+				delete(holder, e.obj)
+				holding[e.task]--
+			}
+			if !e.rejected {
+				lastPut[e.obj] = e.task
+				putStep[e.obj] = e.step
+			}
+		case evForget:
+			// never returned: the hold lasts for ever; the pool must not hand it out again
+		}
+	}
+	rc.nontrivial = g >= 2 && sim.Counters[simrt.CtPoolGetHit] > 0
+	return first
+}
